@@ -275,6 +275,7 @@ ClockTable(q, cons) ==
 ------------------------------------------------------------------------------
 \* what is stored in the state (and compared with the implementation): operators as sparse tables,
 \* plus the derived hermitian-conjugate pairs and operator charges
+NoEdit == [kind |-> "none"]
 HcPairs(T) == {pr \in (DOMAIN T.ops) \X (DOMAIN T.ops) : T.ops[pr[2]] = MDag(T.ops[pr[1]], T.d, T.Mod)}
 Emit(T) ==
     [cls |-> T.cls, par |-> T.par, cons |-> T.cons, Mod |-> T.Mod, d |-> T.d, states |-> T.states,
@@ -282,7 +283,7 @@ Emit(T) ==
      ops |-> [nm \in DOMAIN T.ops |-> Sparse(T.ops[nm])],
      hc |-> HcPairs(T),
      opq |-> [nm \in DOMAIN T.ops |-> OpCharges(T.ops[nm], T.chg, T.qmod)],
-     jw |-> T.jw, c2jw |-> T.c2jw]
+     jw |-> T.jw, c2jw |-> T.c2jw, edit |-> NoEdit]
 
 \* dense matrix of a stored operator
 Dense(sp, d) == Strict([p \in Idx2(d) |-> IF \E t \in sp : t[1] = p[1] /\ t[2] = p[2]
@@ -442,13 +443,54 @@ DoCommonThenGroup ==
                  /\ grp' = [GroupTab(CommonViews(c), "same") EXCEPT !.kind = "common+group", !.pol = pol]
            /\ last' = [op |-> "set_common_charges+GroupedSite"] /\ UNCHANGED <<site, members>>
 
-Next == NewSpinHalf \/ NewSpin \/ NewFermion \/ NewSpinHalfFermion \/ NewSpinHalfHole \/ NewBoson \/ NewClock
+\* ---- the operator bookkeeping of a site as a small state machine: Site.rename_op / remove_op / add_op on a built site.
+\* matrix, charge, need_JW flag and hermitian-conjugate pairing follow the operator.
+DagSp(sp, Mod) == {<<t[2], t[1], EConj(t[3], Mod)>> : t \in sp}
+HcPairsSp(ops, Mod) == {pr \in (DOMAIN ops) \X (DOMAIN ops) : ops[pr[2]] = DagSp(ops[pr[1]], Mod)}
+Editable == site # NoSite /\ site.edit.kind = "none" /\ members = <<>>
+            /\ (site.cls \in {"FermionSite", "SpinHalfSite", "ClockSite"}
+                \/ (site.cls = "SpinHalfFermionSite" /\ site.cons = <<"N", "Sz">>)
+                \/ (site.cls = "BosonSite" /\ site.par[1] = 1))
+Edited(ops, opq, jw, ed) ==
+    /\ site' = [site EXCEPT !.ops = ops, !.opq = opq, !.jw = jw, !.hc = HcPairsSp(ops, site.Mod), !.edit = ed]
+    /\ UNCHANGED <<members, grp>>
+EditNames == (DOMAIN site.ops) \ {"Id", "JW", "JWu", "JWd"}
+\* site.rename_op(old, "Renamed")
+RenameOp == /\ Editable
+            /\ \E old \in EditNames :
+                 LET new == "Renamed"
+                     names == ((DOMAIN site.ops) \ {old}) \cup {new}
+                     src(nm) == IF nm = new THEN old ELSE nm
+                 IN Edited([nm \in names |-> site.ops[src(nm)]], [nm \in names |-> site.opq[src(nm)]],
+                           (site.jw \ {old}) \cup (IF old \in site.jw THEN {new} ELSE {}),
+                           [kind |-> "rename", old |-> old, new |-> new, wasjw |-> old \in site.jw, sp |-> site.ops[old]])
+            /\ last' = [op |-> "rename_op"]
+\* site.remove_op(nm)
+RemoveOp == /\ Editable
+            /\ \E old \in EditNames :
+                 LET names == (DOMAIN site.ops) \ {old} IN
+                 Edited([nm \in names |-> site.ops[nm]], [nm \in names |-> site.opq[nm]], site.jw \ {old},
+                        [kind |-> "remove", old |-> old, new |-> old, wasjw |-> old \in site.jw, sp |-> site.ops[old]])
+            /\ last' = [op |-> "remove_op"]
+\* site.add_op("Added", <matrix of src>, need_JW = <flag of src>)   (hc auto-determined)
+AddOp == /\ Editable
+         /\ \E old \in EditNames :
+                 LET new == "Added"
+                     names == (DOMAIN site.ops) \cup {new}
+                     src(nm) == IF nm = new THEN old ELSE nm
+                 IN Edited([nm \in names |-> site.ops[src(nm)]], [nm \in names |-> site.opq[src(nm)]],
+                           site.jw \cup (IF old \in site.jw THEN {new} ELSE {}),
+                           [kind |-> "add", old |-> old, new |-> new, wasjw |-> old \in site.jw, sp |-> site.ops[old]])
+         /\ last' = [op |-> "add_op"]
+
+Next == RenameOp \/ RemoveOp \/ AddOp \/ NewSpinHalf \/ NewSpin \/ NewFermion \/ NewSpinHalfFermion \/ NewSpinHalfHole \/ NewBoson \/ NewClock
         \/ Pick \/ DoSetCommon \/ DoGroup \/ DoCommonThenGroup
 Spec == Init /\ [][Next]_vars
 
 ------------------------------------------------------------------------------
 \* Theorems.  All matrix identities are exact (canonical entries).
-IsSite == site # NoSite
+AnySite == site # NoSite
+IsSite == site # NoSite /\ site.edit.kind = "none"             \* a site as built by its class
 d == site.d
 Md == site.Mod
 Has(nm) == nm \in DOMAIN site.ops
@@ -460,12 +502,13 @@ Zero(A) == \A p \in Idx2(d) : A[p] = {}
 \* hermitian conjugates: every operator has its conjugate among the named operators
 HcComplete == IsSite => \A a \in DOMAIN site.ops : \E b \in DOMAIN site.ops : <<a, b>> \in site.hc
 \* every named operator carries one definite charge: charge(to) - charge(from) is the same for all its entries
-ChargeRule == IsSite => \A nm \in DOMAIN site.ops : Cardinality(site.opq[nm]) <= 1
+ChargeRule == AnySite => \A nm \in DOMAIN site.ops : Cardinality(site.opq[nm]) <= 1
 \* the sorted basis is a permutation of the documented one, with non-decreasing charges
-PermRule == IsSite => /\ {site.order[k] : k \in 1..d} = 1..d
-                      /\ site.sorted => \A k \in 1..(d - 1) : ~QLess(site.chg[site.order[k + 1]], site.chg[site.order[k]])
+PermRule == AnySite =>
+    /\ {site.order[k] : k \in 1..d} = 1..d
+    /\ site.sorted => \A k \in 1..(d - 1) : ~QLess(site.chg[site.order[k + 1]], site.chg[site.order[k]])
 \* operators flagged as fermionic are exactly those changing the fermion number by an odd amount (plus the JW signs)
-JWFlags == (IsSite /\ site.cls \in {"FermionSite", "SpinHalfFermionSite", "SpinHalfHoleSite"}) =>
+JWFlags == (AnySite /\ site.cls \in {"FermionSite", "SpinHalfFermionSite", "SpinHalfHoleSite"}) =>
     LET JW == Op("JW") IN
     \A nm \in DOMAIN site.ops :
         LET A == Op(nm) IN
@@ -544,6 +587,17 @@ ClockAlgebra == (IsSite /\ site.cls = "ClockSite") =>
     /\ Eq(MMul(Op("Xhc"), X, d, Md), MId(d)) /\ Eq(MMul(Op("Zhc"), Z, d, Md), MId(d))
     /\ Has("Xphc") => /\ Eq(Op("Xphc"), MAdd(X, Op("Xhc"), d, Md))
                       /\ Eq(Op("Zphc"), MAdd(Z, Op("Zhc"), d, Md))
+
+\* renaming / copying / removing: matrix, JW flag and hermitian-conjugate pairing follow the operator
+EditRule == (AnySite /\ site.edit.kind # "none") =>
+    LET e == site.edit IN
+    /\ (e.kind \in {"rename", "remove"}) => (e.old \notin DOMAIN site.ops /\ e.old \notin site.jw /\ \A pr \in site.hc : e.old \notin {pr[1], pr[2]})
+    /\ (e.kind \in {"rename", "add"}) =>
+          /\ site.ops[e.new] = e.sp
+          /\ (e.new \in site.jw) = e.wasjw
+          /\ \A b \in DOMAIN site.ops : (<<e.new, b>> \in site.hc) = (site.ops[b] = DagSp(e.sp, site.Mod))
+          /\ Cardinality(site.opq[e.new]) <= 1
+    /\ site.jw \subseteq DOMAIN site.ops
 
 \* groupings: charges of the product states are sorted consistently and every grouped operator has a definite charge
 GroupChargeRule == (grp.kind \in {"group", "common+group"} /\ ~grp.err) =>
